@@ -421,6 +421,9 @@ func execC13(t *testing.T, cc any, o *Outcome) {
 			}
 			next = append(next, r.text)
 		}
+		if c.BufSz == 16 && kind != "treenexus" && len(o.Viols) == 0 {
+			checkReformatCLI(t, o, c, kind, fname, cur, expect, doc)
+		}
 		single, failed := readSingle(o, "single/"+fname, doc, format, c)
 		if failed || single != back[0].text {
 			o.Fail("single-vs-multi:"+fname, "first tree by the single reader: failed=%v %s\nfirst record of the multi reader: %s\n%s", failed, single, back[0].text, hctx)
@@ -500,4 +503,62 @@ func showRecs(recs []mrec) string {
 		}
 	}
 	return "[" + strings.Join(s, " ") + "]"
+}
+
+// checkReformatCLI performs the same hop through the commands: `gotree reformat nexus|phyloxml` writes the document,
+// `gotree reformat newick -f <format>` reads a document back; both must preserve every tree.
+func checkReformatCLI(t *testing.T, o *Outcome, c *C13Case, kind, fname string, cur, expect []string, libdoc string) {
+	o.Probe("cli:reformat:" + kind)
+	files := map[string]string{"in.nw": strings.Join(cur, "\n") + "\n", "lib.doc": libdoc}
+	args := []string{"reformat", fname, "-i", "@in.nw", "--seed", "1", "-o", "@OUT"}
+	if kind == "nexus+t" {
+		args = append(args, "--translate")
+	}
+	w := runCLI(t, files, args, false, 1, c.Sched)
+	ctx := fmt.Sprintf("gotree %s\n  input %v", strings.Join(args, " "), cur)
+	if w.status != "ok" {
+		o.Fail("cli:reformat:write-failed:"+kind, "the command fails on well-formed trees: %s\n%s", w.status, ctx)
+		return
+	}
+	format := utils.FORMAT_NEXUS
+	if fname == "phyloxml" {
+		format = utils.FORMAT_PHYLOXML
+	}
+	back, ok := readMulti(t, o, "multi/"+fname+"(cli)", w.outs["OUT"], format, c)
+	if !ok {
+		return
+	}
+	if len(back) != len(expect) {
+		o.Fail("cli:reformat:roundtrip-count:"+kind, "%d trees read back from the document the command wrote for %d trees\n%s\n  document %q", len(back), len(expect), ctx, w.outs["OUT"])
+		return
+	}
+	for i, r := range back {
+		if r.err || canonTree(r.text) != expect[i] {
+			o.Fail("cli:reformat:roundtrip:"+kind, "tree %d differs from its source after the command\n  want %s\n  got  %s (error %v)\n%s\n  document %q", i, expect[i], canonTree(r.text), r.err, ctx, w.outs["OUT"])
+			return
+		}
+	}
+	// and back to Newick through the command, from the document the library wrote
+	rargs := []string{"reformat", "newick", "-i", "@lib.doc", "-f", fname, "--seed", "1", "-o", "@OUT"}
+	rd := runCLI(t, files, rargs, false, 1, c.Sched)
+	if rd.status != "ok" {
+		o.Fail("cli:reformat:read-failed:"+fname, "gotree %s fails: %s\n  document %q", strings.Join(rargs, " "), rd.status, libdoc)
+		return
+	}
+	var lines []string
+	for _, ln := range strings.Split(rd.outs["OUT"], "\n") {
+		if strings.TrimSpace(ln) != "" {
+			lines = append(lines, ln)
+		}
+	}
+	if len(lines) != len(expect) {
+		o.Fail("cli:reformat:read-count:"+fname, "gotree %s prints %d trees for a document of %d\n  document %q\n  output %q", strings.Join(rargs, " "), len(lines), len(expect), libdoc, rd.outs["OUT"])
+		return
+	}
+	for i, ln := range lines {
+		if canonTree(ln) != expect[i] {
+			o.Fail("cli:reformat:read:"+fname, "gotree %s: tree %d differs from its source\n  want %s\n  got  %s\n  document %q", strings.Join(rargs, " "), i, expect[i], canonTree(ln), libdoc)
+			return
+		}
+	}
 }
